@@ -26,10 +26,12 @@ structure Loader where
       an arbitrary function of name, bound arguments and state — it may fail in any way,
       including with a host exception (`Fail.host`).  The structural theorems hold for
       every interpretation.  The driver's interpretation abstains (`unsupported`). -/
-  /-- `getArgNames()` of the unmodelled natives -/
-  nativeArgs : String → Option (List String) := fun _ => none
   nativeSem : String → List (String × RVal) → State → Out RVal :=
     fun name _ s => .fail (.unsupported ("native " ++ name)) s
+  /-- `getArgNames()` of the unmodelled natives -/
+  nativeArgs : String → Option (List String) := fun _ => none
+
+instance : Inhabited Loader := ⟨{}⟩
 
 def Loader.find (ld : Loader) (modulefile : String) : Option (Except SynErr Node) :=
   match ld.bundled.lookup modulefile.toLower with
